@@ -8,7 +8,7 @@ ordinary roots (exotic roots are refused by design: 'cant convert exotic cell to
 """
 import base64
 from hypothesis import strategies as st
-from harness.core import Sub, Fail, call, exc_sig
+from harness.core import Sub, Fail, call, exc_sig, look
 from harness.gen import dag, boccases
 from harness.ref import refcell as rc
 
@@ -35,6 +35,8 @@ def check(case):
     minimal = case.get('minimal', False)    # 65 536-cell bags in the quick tier: one option set, bytes form, Cell entry point
     for (idx, crc, cache) in ([tuple(o) for o in case.get('optsets', [(1, 1, 1)])] if minimal else boccases.OPTSETS):
         tag = f'idx{idx}crc{crc}cache{cache}'
+        if not light:
+            look(root)              # the caller printed the tree (once more before every serialisation): it is what it was
         ok, boc = call(root.to_boc, bool(idx), bool(crc), bool(cache))
         if not ok:
             return Fail(f'to_boc-raises/{type(boc).__name__}', f'{tag}: {exc_sig(boc)}: {boc!r}')
@@ -42,7 +44,10 @@ def check(case):
             return Fail('to_boc/not-bytes', tag)
         forms = [('bytes', bytes(boc))]
         if not minimal and (not light or (idx, crc, cache) == (1, 1, 0)):
-            forms += [('hex', boc.hex()), ('HEX', boc.hex().upper()), ('base64', base64.b64encode(boc).decode())]
+            forms += [('hex', boc.hex()), ('HEX', boc.hex().upper()), ('base64', base64.b64encode(boc).decode()),
+                      # the same three forms held in subclasses of bytes / str (a transport layer's own types)
+                      ('bytes-subclass', dag.BocBytes(boc)), ('hex-str-subclass', dag.BocText(boc.hex())),
+                      ('base64-str-subclass', dag.BocText(base64.b64encode(boc).decode()))]
         first = None
         for fname, data in forms:
             ok, parsed = call(Cell.one_from_boc, data)
@@ -62,9 +67,9 @@ def check(case):
                 # the less travelled entry points: Builder.from_boc (a list of cells), Boc(...).deserialize(), Boc.from_hex / from_base64
                 from pytoniq_core.boc.deserialize import Boc
                 alts = [('Builder.from_boc', lambda: Builder.from_boc(data)), ('Boc.deserialize', lambda: Boc(data).deserialize())]
-                if fname in ('hex', 'HEX'):
+                if fname in ('hex', 'HEX', 'hex-str-subclass'):
                     alts.append(('Boc.from_hex', lambda: Boc.from_hex(data).deserialize()))
-                if fname == 'base64':
+                if fname in ('base64', 'base64-str-subclass'):
                     alts.append(('Boc.from_base64', lambda: Boc.from_base64(data).deserialize()))
                 for ename, thunk in alts:
                     ok, lst = call(thunk)
@@ -75,6 +80,13 @@ def check(case):
                         return Fail(f'entry/{ename}-differs/{fname}', f'{tag}: {lst!r}'[:300])
             if minimal:
                 continue
+            # ... into an application's own Cell subclass whose constructor parses another bag first (a parse inside a parse)
+            App = dag.cell_subclass(dag.TEMPLATE_BAG if fname != 'hex' else None)
+            ok, sub = call(App.one_from_boc, data)
+            if not ok:
+                return Fail(f'entry/Cell-subclass.one_from_boc-raises/{fname}', f'{tag}: {exc_sig(sub)}: {sub!r}')
+            if sub.hash != parsed.hash or rc.structurally_equal_lib(root_r, sub):
+                return Fail(f'entry/Cell-subclass.one_from_boc-differs/{fname}', f'{tag}: {rc.structurally_equal_lib(root_r, sub)}')
             # other entry points
             ok, s = call(lambda: Slice.one_from_boc(data).to_cell())
             if not ok:
